@@ -113,6 +113,28 @@ Theorem C09_last_stage_outcomes_partial : forall T smiles strict attribute m0 m1
   encoder T smiles strict attribute = Err e -> e = EncoderError.
 Proof. exact encoder_after_kekulize_outcomes. Qed.
 
+(* everything assembled, for EVERY string, every table with a '?' entry and both flags: the model of encoder() returns, or
+   raises EncoderError, or the reader's int() refuses an over-long digit field (ValueError: known finding), or the error
+   comes out of find_perfect_matching on the pruned graph - the one routine whose own crash freedom is not proved *)
+Theorem C09_encoder_outcomes_partial : forall T smiles strict attribute e,
+  (exists v, assoc (lit "?") T = Some v) ->
+  encoder T smiles strict attribute = Err e ->
+  e = EncoderError \/ e = ValueError \/
+  exists m0 g, smiles_to_mol smiles attribute = Ok m0 /\ pruned_ds m0 = Ok g /\ find_perfect_matching g = Err e.
+Proof.
+  intros T smiles strict attribute e Hq E.
+  pose proof (smiles_to_mol_total smiles attribute) as Hp.
+  destruct (smiles_to_mol smiles attribute) as [m0|e0] eqn:Ep.
+  - destruct (kekulize m0) as [[m1|]|ek] eqn:Ek.
+    + left. exact (encoder_after_kekulize_outcomes T smiles strict attribute m0 m1 e Hq Ep Ek E).
+    + left. unfold encoder in E. rewrite (kekulize_failure_becomes_encoder_error _ smiles strict attribute m0 Ep Ek) in E. congruence.
+    + right. right. unfold encoder, encoder_c in E. rewrite Ep in E. unfold encode_mol in E. rewrite Ek in E. cbn in E. inversion E; subst ek.
+      destruct (kekulize_fails_only_inside_matching m0 e (parsed_kpre _ _ _ Ep) Ek) as (g & Eg & Em). exists m0, g. auto.
+  - unfold encoder, encoder_c in E. rewrite Ep in E. destruct Hp as [-> | ->]; inversion E; auto.
+Qed.
+
+
+
 Print Assumptions C09_parse_error_is_encoder_error_partial.
 Print Assumptions C09_parser_total_partial.
 Print Assumptions C09_first_stage_outcomes_partial.
@@ -123,6 +145,7 @@ Print Assumptions C09_emission_no_index_error_partial.
 Print Assumptions C09_emission_no_key_error_partial.
 Print Assumptions C09_emission_no_attribute_error_partial.
 Print Assumptions C09_last_stage_outcomes_partial.
+Print Assumptions C09_encoder_outcomes_partial.
 Print Assumptions C09_emission_no_assertion_error_partial.
 Print Assumptions C09_emission_no_value_error_partial.
 Print Assumptions C09_kekulize_leaves_integral_orders.
